@@ -1179,10 +1179,16 @@ protected:
       _webhookServer = std::make_unique<network::WebhookServer>(bindAddress, port);
       IORA_LOG_INFO("applyConfig: Setting webhook server to bind on " << bindAddress << ":" << port);
 
-      // TLS
-      bool hasTls = _config.server.tls.certFile.has_value() &&
-                    _config.server.tls.keyFile.has_value() &&
-                    _config.server.tls.caFile.has_value();
+      // TLS is requested as soon as a certificate or a key is named, or client
+      // certificates are required. The CA file only serves to verify client
+      // certificates, so it must not decide whether the server speaks TLS at all:
+      // with certFile + keyFile but no caFile the server used to start in clear
+      // text. enableTls() rejects an incomplete configuration (missing key, or
+      // requireClientCert without caFile), so a half-configured TLS section fails
+      // the start instead of silently serving plain HTTP.
+      bool hasTls = _config.server.tls.certFile.has_value() ||
+                    _config.server.tls.keyFile.has_value() ||
+                    _config.server.tls.requireClientCert.value_or(false);
       if (hasTls)
       {
         IORA_LOG_INFO("applyConfig: TLS is enabled");
